@@ -285,6 +285,7 @@ class Normaliser:
         out = []
         for s in stmts:
             out += self.statement(s, fn, cls)
+        out = self.tuples(out, fn)
         out = self.guards(out) if in_loop else self.unnest(out)
         # recurse into compound statements
         for i, s in enumerate(out):
@@ -327,6 +328,35 @@ class Normaliser:
             if isinstance(s, ast.If):
                 s.body, s.orelse = cls.nest_all(s.body), cls.nest_all(s.orelse)
         return out
+
+    def tuples(self, stmts, fn):
+        """`t = (e1, e2)` directly followed by `x, y = t` (the only use of t) -> `x, y = e1, e2`;
+        `x, y = e1, e2` -> `x = e1; y = e2` when no later expression reads an earlier target"""
+        out = list(stmts)
+        i = 0
+        while i + 1 < len(out):
+            t, v = self.simple_assign(out[i])
+            t2, v2 = self.simple_assign(out[i + 1])
+            if isinstance(t, ast.Name) and isinstance(v, ast.Tuple) and isinstance(t2, ast.Tuple) \
+                    and isinstance(v2, ast.Name) and v2.id == t.id and len(t2.elts) == len(v.elts) \
+                    and not any(isinstance(e, ast.Starred) for e in list(t2.elts) + list(v.elts)) \
+                    and sum(1 for n in ast.walk(fn) if isinstance(n, ast.Name) and n.id == t.id) == 2:
+                out[i:i + 2] = [ast.copy_location(ast.Assign(targets=[t2], value=v), out[i + 1])]
+                continue
+            i += 1
+        res = []
+        for s in out:
+            t, v = self.simple_assign(s)
+            if isinstance(s, ast.Assign) and isinstance(t, ast.Tuple) and isinstance(v, ast.Tuple) \
+                    and len(t.elts) == len(v.elts) and all(isinstance(e, ast.Name) for e in t.elts) \
+                    and len({e.id for e in t.elts}) == len(t.elts) \
+                    and not any(isinstance(e, ast.Starred) for e in v.elts) \
+                    and not any(t.elts[a].id in names_in(v.elts[b]) for a in range(len(t.elts)) for b in range(a + 1, len(v.elts))):
+                for a, b in zip(t.elts, v.elts):
+                    res.append(ast.copy_location(ast.Assign(targets=[a], value=b), s))
+                continue
+            res.append(s)
+        return res
 
     @staticmethod
     def guards(stmts):
